@@ -10,6 +10,10 @@ hs-client resp <reqHeader:hdr> <comp> <ext:none|hex> <status> <parsed response h
 hs-client bad  <reqHeader:hdr> <comp> <ext:none|hex> <raw:hex> <cuts> <close|hang>
 hs-client keys <n>
 ```
+A `req` / `resp` line may end with observation fields `impl:<0|1>` appended by the harness run (what
+the implementation decided on this case; the last one counts): the spec verdict then also judges the
+implementation's decision against the property's condition, so a deviation of the code shows as
+`bad:impl-…` and not only as a difference from the model.
 `hdr` = `.` or `name=hexlist;name=hexlist;…` (names in hex); `frames` = `.` or `op:payloadhex,…` ending
 with a Close frame.  Response header values may contain the placeholders `$ACCEPT` (the right accept
 value for the key in use), `$LOWER` (it, lower-cased), `$TRUNC` (it, without its last character) and
@@ -78,8 +82,20 @@ def sErrName : SErr → String
 
 def asciiFoldEq (a b : Bytes) : Bool := lower a == lower b
 
-def subOk (server : List Bytes) (offer : Bytes) : Bool :=
-  server.isEmpty || server.any (fun p => (split offer).contains p)
+def subOk (mine peer : List Bytes) : Bool := mine.isEmpty || mine.any (fun p => peer.contains p)
+
+/-- splits the observation fields `impl:<b>` off the end of the argument list -/
+def splitObs (args : List String) : List String × Option Bool :=
+  let obs := args.filter (·.startsWith "impl:")
+  (args.filter (fun a => !a.startsWith "impl:"), obs.getLast?.map (· == "impl:1"))
+
+/-- verdict on one decision (`who` = model or impl): it must equal the property's condition `strict`;
+accepting under the Unicode-fold reading `fold` of "any letter case" is tolerated latitude -/
+def judge (who : String) (acc strict fold : Bool) : Option String :=
+  if acc == strict then none
+  else if acc && fold then none
+  else if acc then some s!"bad:{who}-accepted-invalid"
+  else some s!"bad:{who}-refused-valid"
 
 end Drv.HsDrv
 
@@ -89,7 +105,8 @@ open Hs HsDrv
 open Sha1 (asc)
 
 /-- `hs-server` -/
-def runHsServer (args : List String) : Res :=
+def runHsServer (args0 : List String) : Res :=
+  let (args, implAcc) := splitObs args0
   match args with
   | ["bad", _] => { out := "http-parse-error", tags := "parse-error" }
   | ["req", subs, rh, _comp, auth, sess, ext, method, hdr, _raw] =>
@@ -101,24 +118,23 @@ def runHsServer (args : List String) : Res :=
     let d := serverDecide o r auth ext
     let out := upgradeFromConn o r auth sess ext (asc "D")
     let acc := d.isAccept
-    -- the property's iff, computed from the inputs: token reading and substring reading
-    let conn := get r.header kConnection
+    -- the property's iff, computed from the inputs: the upgrade token on any Connection line, a
+    -- sub-protocol shared with any Sec-WebSocket-Protocol line
+    let connLines := vals r.header kConnection
+    let protoLines := vals r.header kProtocol
     let upg := get r.header kUpgrade
-    let rest := auth && r.method == asc "GET" && get r.header kVersion == asc "13" &&
-      get r.header kKey != [] && subOk o.subProtocols (get r.header kProtocol)
-    let token : Bool := decide (hasToken conn (asc "upgrade"))
-    let substr := hasSub (asc "upgrade") (lower conn)
-    let upAscii := asciiFoldEq upg (asc "websocket")
-    let upFold := foldEq upg (asc "websocket")
-    let mustAccept := rest && token && upAscii
-    let mayAccept := rest && substr && upFold
+    let token : Bool := decide (HasToken connLines (asc "upgrade"))
+    let rest := auth && r.method == asc "GET" && get r.header kVersion == asc "13" && token &&
+      get r.header kKey != [] && subOk o.subProtocols (offered protoLines)
+    let strict := rest && asciiFoldEq upg (asc "websocket")
+    let fold := rest && foldEq upg (asc "websocket")
     -- response clauses, computed from the inputs
     let canonical := o.responseHeader.all (fun e => canon e.1 == e.1)
     let respOk : Bool := match d with
       | .reject _ => true
       | .accept ls sp =>
         let named := fun (k : Bytes) => ls.filter (fun l => canon l.1 == canon k)
-        let firstCommon := (o.subProtocols.find? (fun p => (split (get r.header kProtocol)).contains p)).getD []
+        let firstCommon := (o.subProtocols.find? (fun p => (offered protoLines).contains p)).getD []
         -- a field the code writes is the first line of its name; one it does not write is absent
         -- (the latter only when the configured keys are canonical, see `response_fields`)
         let expect := fun (k : Bytes) (want : Option (Bytes × Bytes)) =>
@@ -132,21 +148,24 @@ def runHsServer (args : List String) : Res :=
         expect kProtocol (if o.subProtocols.isEmpty then none else some (kProtocol, sp)) &&
         sp == firstCommon
     let spec :=
-      if mustAccept && !acc then "bad:valid-request-refused"
-      else if acc && !mayAccept then "bad:invalid-request-accepted"
-      else if acc && !token then "bad:accepted-without-upgrade-token"
-      else if !respOk then "bad:response-fields"
-      else if acc != out.conn.isSome || acc == out.closed then "bad:outcome"
-      else "ok"
-    let connVals := values r.header (canon kConnection)
-    let protoVals := values r.header (canon kProtocol)
+      match judge "model" acc strict fold with
+      | some v => v
+      | none =>
+      match implAcc.bind (fun a => judge "impl" a strict fold) with
+      | some v => v
+      | none =>
+        if !respOk then "bad:response-fields"
+        else if acc != out.conn.isSome || acc == out.closed then "bad:outcome"
+        else "ok"
+    let lowerHas := fun (v : Bytes) => (List.range v.length).any (fun i => (asc "upgrade").isPrefixOf ((lower v).drop i))
     let tags := String.intercalate " " <|
       [match d with | .accept _ _ => "accept" | .reject e => "reject-" ++ sErrName e] ++
-      (if mayAccept && !mustAccept && token then ["nonascii-fold-accepted"] else []) ++
-      (if mayAccept && !token then ["latitude-substring-not-token"] else []) ++
-      (if !acc && rest && upAscii && !substr && (connVals.drop 1).any (fun v => hasSub (asc "upgrade") (lower v))
-        then ["later-connection-line-ignored"] else []) ++
-      (if protoVals.length > 1 then ["multi-protocol-lines"] else []) ++
+      (if acc && !strict then ["nonascii-fold-accepted"] else []) ++
+      (if !token && connLines.any lowerHas then ["substring-not-token"] else []) ++
+      (if token && !decide (HasToken (connLines.take 1) (asc "upgrade")) then ["token-on-later-line"] else []) ++
+      (if protoLines.length > 1 then ["multi-protocol-lines"] else []) ++
+      (if !o.subProtocols.isEmpty && acc && !subOk o.subProtocols (offered (protoLines.take 1)) then ["protocol-on-later-line"] else []) ++
+      (if (vals r.header kUpgrade).length > 1 then ["multi-upgrade-lines"] else []) ++
       (if !canonical then ["noncanonical-config-key"] else []) ++
       (if ext.isSome then ["ext"] else []) ++
       (if !o.subProtocols.isEmpty then ["subs"] else [])
@@ -233,7 +252,8 @@ open Hs HsDrv
 open Sha1 (asc)
 
 /-- `hs-client` -/
-def runHsClient (args : List String) : Res :=
+def runHsClient (args0 : List String) : Res :=
+  let (args, implAcc) := splitObs args0
   match args with
   | ["keys", n] => { out := s!"n={n} distinct=1 len16=1", tags := "keys" }
   | ["bad", rh, _comp, ext, _raw, _cuts, end_] =>
@@ -247,27 +267,32 @@ def runHsClient (args : List String) : Res :=
     let resp : Resp := { status := status.toNat!, header := header }
     let out := clientOutcome o key resp
     let acc := out.conn.isSome
-    let conn := get resp.header kConnection
+    let connLines := vals resp.header kConnection
     let upg := get resp.header kUpgrade
     let requested := split (get o.requestHeader kProtocol)
-    let rest := resp.status == 101 &&
+    let token : Bool := decide (HasToken connLines (asc "upgrade"))
+    let rest := resp.status == 101 && token &&
       get resp.header kAccept == Base64.encode (Sha1.sha1 (key ++ asc Facts.magicNumber)) &&
-      (requested.isEmpty || requested.any (fun p => (split (get resp.header kProtocol)).contains p))
-    let token : Bool := decide (hasToken conn (asc "upgrade"))
-    let substr := hasSub (asc "upgrade") (lower conn)
-    let mustAccept := rest && token && asciiFoldEq upg (asc "websocket")
-    let mayAccept := rest && substr && foldEq upg (asc "websocket")
+      subOk requested (split (get resp.header kProtocol))
+    let strict := rest && asciiFoldEq upg (asc "websocket")
+    let fold := rest && foldEq upg (asc "websocket")
     let firstCommon := (requested.find? (fun p => (split (get resp.header kProtocol)).contains p)).getD []
     let spec :=
-      if mustAccept && !acc then "bad:valid-response-refused"
-      else if acc && !mayAccept then "bad:invalid-response-accepted"
-      else if acc && out.conn != some firstCommon then "bad:subprotocol"
-      else if acc == out.closed then "bad:outcome"
-      else "ok"
+      match judge "model" acc strict fold with
+      | some v => v
+      | none =>
+      match implAcc.bind (fun a => judge "impl" a strict fold) with
+      | some v => v
+      | none =>
+        if acc && out.conn != some firstCommon then "bad:subprotocol"
+        else if acc == out.closed then "bad:outcome"
+        else "ok"
+    let lowerHas := fun (v : Bytes) => (List.range v.length).any (fun i => (asc "upgrade").isPrefixOf ((lower v).drop i))
     let tags := String.intercalate " " <|
       [match out.err with | some e => "reject-" ++ cErrName e | none => "accept"] ++
-      (if mayAccept && !mustAccept && token then ["nonascii-fold-accepted"] else []) ++
-      (if mayAccept && !token then ["latitude-substring-not-token"] else []) ++
+      (if acc && !strict then ["nonascii-fold-accepted"] else []) ++
+      (if !token && connLines.any lowerHas then ["substring-not-token"] else []) ++
+      (if token && !decide (HasToken (connLines.take 1) (asc "upgrade")) then ["token-on-later-line"] else []) ++
       (if !requested.isEmpty then ["subs"] else []) ++
       (if frames != "." then ["frames"] else [])
     { out := s!"acc={b2s acc} err={match out.err with | some e => cErrName e | none => "-"} sp={match out.conn with | some sp => toHex sp | none => "-"} closed={b2s out.closed} timely=1 {showRequest o (parseOpt ext)} msgs={if acc then showFrames frames else "-"}",
